@@ -140,3 +140,45 @@ Proof.
     destruct (fuel - k) as [|fu] eqn:E; [lia|]. simpl. rewrite Hk.
     rewrite IH; auto. lia.
 Qed.
+
+(* STL: the parser recovers, in order, the fan triangles of every face *)
+Lemma parse_stl_vertex_ok n i : i < n -> parse_stl_vertex n (stl_vertex i) = Some i.
+Proof.
+  intros H. unfold stl_vertex, vline, parse_stl_vertex.
+  assert (E : Nat.div (3 * i) 3 = i) by (rewrite Nat.mul_comm; apply Nat.div_mul; lia).
+  rewrite E. change (Nat.eqb kVERTEX kVERTEX) with true. cbn [andb].
+  fold (vline i). rewrite line_eqb_refl. cbn [andb].
+  apply Nat.ltb_lt in H. rewrite H. reflexivity.
+Qed.
+
+Definition tri_lt (n : nat) (t : tri3) : Prop := let '(a, b, c) := t in a < n /\ b < n /\ c < n.
+
+Lemma parse_stl_facets_ok n ts :
+  Forall (tri_lt n) ts -> parse_stl_facets n (flat_map stl_facet ts ++ [[K kENDSOLID; K 0]]) = Some ts.
+Proof.
+  induction 1 as [|[[a b] c] ts [Ha [Hb Hc]] _ IH]; [reflexivity|].
+  cbn [flat_map stl_facet app parse_stl_facets].
+  rewrite !line_eqb_refl. cbn [andb].
+  rewrite (parse_stl_vertex_ok n a Ha), (parse_stl_vertex_ok n b Hb), (parse_stl_vertex_ok n c Hc), IH. reflexivity.
+Qed.
+
+Lemma fan_from_lt n a b l : a < n -> b < n -> Forall (fun i => i < n) l -> Forall (tri_lt n) (fan_from a b l).
+Proof.
+  revert b. induction l as [|c r IH]; intros b Ha Hb Hl; [constructor|].
+  inversion Hl; subst. cbn [fan_from]. constructor; [simpl; auto|]. apply IH; auto.
+Qed.
+Lemma fan_lt n f : Forall (fun i => i < n) f -> Forall (tri_lt n) (fan f).
+Proof.
+  destruct f as [|a [|b l]]; intros H; try constructor.
+  inversion H as [|? ? Ha H1]; subst. inversion H1 as [|? ? Hb H2]; subst. apply fan_from_lt; auto.
+Qed.
+
+Theorem stl_roundtrip m : wf_mesh m = true -> parse_stl (nv m) (write_stl m) = Some (flat_map fan (faces m)).
+Proof.
+  intros H. unfold parse_stl, write_stl. change (Nat.eqb kSOLID kSOLID) with true. cbn iota.
+  apply parse_stl_facets_ok.
+  unfold wf_mesh in H. rewrite forallb_forall in H.
+  apply Forall_flat_map. apply Forall_forall. intros f Hf. apply fan_lt.
+  specialize (H f Hf). apply andb_true_iff in H. destruct H as [_ Hi].
+  rewrite forallb_forall in Hi. apply Forall_forall. intros i Hi'. apply Nat.ltb_lt. auto.
+Qed.
